@@ -168,9 +168,6 @@ def specIdentity (h : List Op) (o : Obs) : Option String :=
 def specC01 (h : List Op) (o : Obs) : Option String :=
   if !wfNoReuse h then none else specIdentity h o
 
-def specC09 (h : List Op) (o : Obs) : Option String :=
-  if !wfReuse h then none else specIdentity h o
-
 /-- C04 makes no assumption on the history beyond PID/session reuse being C09's subject -/
 def specC04 (h : List Op) (o : Obs) : Option String :=
   if !(wfNoReuse h || wfReuse h) then
@@ -208,8 +205,8 @@ def sessionIds (h : List Op) : List Str :=
 /-- for histories as in C01 without faults: per session the emitted events up to the disposal
 record are exactly the expected ones, once, in order, released at the right operation; whatever
 else is emitted for the session is a later record of it -/
-def specC02 (h : List Op) (failAt : Option Nat) (o : Obs) : Option String :=
-  if !wfNoReuse h || failAt.isSome || o.err ≠ "nil" then none else
+def specComplete (h : List Op) (failAt : Option Nat) (o : Obs) : Option String :=
+  if failAt.isSome || o.err ≠ "nil" then none else
   (sessionIds h).findSome? fun s =>
     match expectedCore h s with
     | none => none
@@ -227,6 +224,17 @@ def specC02 (h : List Op) (failAt : Option Nat) (o : Obs) : Option String :=
           | none => []
         if late.all (fun g => after.contains g.1) && (late.map (·.1)).eraseDups.length = late.length
         then none else some "unexpected-extra-events"
+
+def specC02 (h : List Op) (failAt : Option Nat) (o : Obs) : Option String :=
+  if !wfNoReuse h then none else specComplete h failAt o
+
+/-- C09: with PIDs reused after the earlier session ended, every event carries the identity of the
+login of its own use of the PID, and the sessions of the later uses are emitted completely -/
+def specC09 (h : List Op) (failAt : Option Nat) (o : Obs) : Option String :=
+  if !wfReuse h then none else
+  match specIdentity h o with
+  | some c => some c
+  | none => specComplete h failAt o
 
 /-! ### C14: rendering -/
 
